@@ -195,7 +195,7 @@ def run_case(case):
 
 
 def floors(tier):
-    return {"distinct_nontrivial": 40, "C12.exhaustive:T": 15, "C12.distinct:T": 300, "C12.variable_changed:T": 20}
+    return {"distinct_nontrivial": 30, "C12.exhaustive:T": 12, "C12.distinct:T": 150, "C12.variable_changed:T": 10}
 
 
 def shards(tier):
